@@ -1893,6 +1893,7 @@ func (t *tScreen) inputLoop(stopQ chan struct{}) {
 				select {
 				case t.eventQ <- NewEventError(e):
 				case <-t.quit:
+				case <-stopQ:
 				}
 			}
 			return
